@@ -61,7 +61,10 @@ def _vec_param(draw, ctx, base, max_move):
                  - sum(parts[1][i][j] * ctx.dep[vb][1] for j in range(ctx.dep[vb][0])), 4) for i in range(d)]
         out = {"k": "affine2", "var": va, "var2": vb, "v0": v0, "V1": parts[0], "V2": parts[1]}
         if ctx.pydef and vb != "t" and draw(st.booleans()):
-            out["pydef"] = True        # def f(va, vb=<default>): the library must still use a supplied / fixed vb
+            if draw(st.booleans()):
+                out["pydef"] = True        # def f(va, vb=<default>): the library must still use a supplied / fixed vb
+            else:
+                out["kdef"] = True         # def f(va, vb, k=<default>): k is never supplied and must survive evaluation
         return out
     var = draw(st.sampled_from(names))
     dv, lo, hi = ctx.dep[var]
